@@ -177,3 +177,67 @@ def shadowize(prog, picks):
         prog = _rename(prog, name, target)
         done += 1
     return prog, done
+
+
+# ------------------------------------------------------------------------------------------------------------------
+# Shadowing of global names: a user declaration (variable, parameter, class) may carry the name of a builtin class.
+# Inside its scope the name means the user's declaration; everything the language does implicitly (a class without a
+# superclass inherits the builtin Object, literals build builtin lists / maps / strings, runtime errors are builtin
+# error classes) does not go through the user's scope and is unaffected.
+GLOBAL_NAMES = ["Object", "Error", "List", "Map", "Number", "String", "Bool", "Nil", "Class", "Fun", "Iter", "Tuple",
+                "Channel", "Module", "Method", "Closure", "Native", "TypeError", "IndexError", "ValueError"]
+
+
+def _class_names(node, out):
+    if isinstance(node, tuple):
+        if node and node[0] == "class" and len(node) == 6 and isinstance(node[1], str):
+            out.append(node[1])
+        for c in node:
+            _class_names(c, out)
+    elif isinstance(node, list):
+        for c in node:
+            _class_names(c, out)
+
+
+def _rename_class(node, old, new):
+    if isinstance(node, tuple):
+        k = node[0] if node else None
+        if k == "var" and len(node) == 2:
+            return ("var", new) if node[1] == old else node
+        if k in ("str", "num"):
+            return node
+        if k == "class" and len(node) == 6:
+            return ("class", new if node[1] == old else node[1], new if node[2] == old else node[2]) + \
+                tuple(_rename_class(c, old, new) for c in node[3:])
+        if k == "try":
+            return ("try", _rename_class(node[1], old, new),
+                    [(v, new if c == old else c, _rename_class(b, old, new)) for (v, c, b) in node[2]])
+        return tuple(_rename_class(c, old, new) for c in node)
+    if isinstance(node, list):
+        return [_rename_class(c, old, new) for c in node]
+    return node
+
+
+def globalize(prog, picks, text, banned=()):
+    """Rename up to len(picks)//2 user declarations to builtin class names that the program text does not mention.
+    -> (program, [(old, new)])"""
+    import re
+    free = [g for g in GLOBAL_NAMES if g not in banned and not re.search(r"\b%s\b" % g, text)]
+    done = []
+    for i in range(0, len(picks) - 1, 2):
+        if not free:
+            break
+        sc = _Scopes()
+        _stmts(prog, 0, sc)
+        variables = sorted(set(name for (name, _scope, _init) in sc.decls if sc.count.get(name, 0) == 1))
+        classes = []
+        _class_names(prog, classes)
+        classes = sorted(set(c for c in classes if classes.count(c) == 1 and sc.count.get(c, 0) == 1))
+        cands = [("v", n) for n in variables] + [("c", n) for n in classes]
+        if not cands:
+            break
+        kind, name = cands[picks[i] % len(cands)]
+        target = free.pop(picks[i + 1] % len(free))
+        prog = _rename(prog, name, target) if kind == "v" else _rename_class(prog, name, target)
+        done.append((name, target))
+    return prog, done
